@@ -5,4 +5,5 @@ let table = [
   (3, FamMaint.run_fam_maint);
   (4, FamSched.run_fam_sched);
   (5, FamSensor.run_fam_sensor);
+  (6, FamFloor.run_fam_floor);
 ]
